@@ -16,6 +16,7 @@ import numpy as np
 from .. import cards, rel, yrun
 from ..engine import digest
 
+HISTORY_SWEEP = True
 ID = "C06"
 XS = [0.01, 0.2]
 
